@@ -77,6 +77,12 @@ def _kw(call: ast.Call, name: str):
 
 
 def apply_decorator(g: Guard, idx: Index, mod, d: ast.AST) -> None:
+    # a module-level name bound to a configured decorator: media_login = login_required(permission=..)
+    for _ in range(3):
+        if isinstance(d, ast.Name) and isinstance(getattr(mod, 'assigns', {}).get(d.id), ast.Call):
+            d = mod.assigns[d.id]
+        else:
+            break
     target = d.func if isinstance(d, ast.Call) else d
     q = idx.resolve_expr(mod, target) or norm(target)
     short_name = q.rsplit('.', 1)[-1]
@@ -377,9 +383,23 @@ def check_before_mutate(rep: Report, idx: Index, cg: CallGraph) -> None:
                         elif not (isinstance(v, ast.Constant) and v.value is None):
                             if isinstance(v, (ast.Constant, ast.JoinedStr, ast.Call)):
                                 s.add(('set', tn))
+                        # boolean flags: ok = True / ok = False
+                        if isinstance(t, ast.Name):
+                            s = {f for f in s if not (isinstance(f, tuple) and f[0] == 'bool' and f[1] == t.id)}
+                            if isinstance(v, ast.Constant) and isinstance(v.value, bool):
+                                s.add(('bool', t.id, v.value))
                     return frozenset(s)
 
                 def assume(self, test, s, truth):
+                    t = test
+                    neg = False
+                    while isinstance(t, ast.UnaryOp) and isinstance(t.op, ast.Not):
+                        t, neg = t.operand, not neg
+                    if isinstance(t, ast.Name):
+                        want = truth != neg
+                        if ('bool', t.id, not want) in s:
+                            return None
+                        return s
                     t = test
                     if isinstance(t, ast.Compare) and len(t.ops) == 1 \
                             and isinstance(t.comparators[0], ast.Constant) \
